@@ -6,6 +6,7 @@ import (
 	"fmt"
 	"os"
 	"path/filepath"
+	"reflect"
 	"strings"
 	"sync/atomic"
 	"testing"
@@ -259,6 +260,26 @@ func c10OneSequence(r *verifrt.Result, rnd *verifrt.Rand, dir string, i int) {
 			r.Violate("readback-mismatch", "independent decoder reads back something else than was written: "+d,
 				verifrt.CaseReplay(i, map[string]any{"input": saveInput(r, "C10", data)}))
 			return
+		}
+		// the library's own reader sees the file the same way
+		if pf, perr := Parse(path, data); perr != nil {
+			r.Violate("library-rejects-own-file", fmt.Sprintf("after op %d the library's reader rejects the file its writer produced (metadata %d bytes): %v", op, len(meta), perr),
+				verifrt.CaseReplay(i, map[string]any{"input": saveInput(r, "C10", data)}))
+			return
+		} else {
+			if !reflect.DeepEqual(pf.Meta, cf.MetaKV) && !(len(pf.Meta) == 0 && len(cf.MetaKV) == 0) {
+				r.Violate("library-reads-other-metadata", fmt.Sprintf("library reader sees metadata %q, the file holds %q", pf.Meta, cf.MetaKV), verifrt.CaseReplay(i, map[string]any{"input": saveInput(r, "C10", data)}))
+				return
+			}
+			want := map[string]uint64{}
+			for n, v := range cf.Counts() {
+				want[verifref.ExpandStack(n)] = v
+			}
+			if !reflect.DeepEqual(pf.Count, want) && !(len(pf.Count) == 0 && len(want) == 0) {
+				r.Violate("library-reads-other-counts", "library reader and independent decoder disagree on the counters of a file the library wrote", verifrt.CaseReplay(i, map[string]any{"input": saveInput(r, "C10", data)}))
+				return
+			}
+			r.Hit("library-readback")
 		}
 		for _, rec := range cf.Records {
 			if rec.Flag != 0xff {
